@@ -1521,7 +1521,8 @@ func (l *ledger) oracles(b *types.Block, invalid types.Transactions, byHash map[
 				id := l.nodeIDOf(b.ParentHash(), a)
 				due := pv.isCand == 2 && pv.deposit != "" && !l.n.DM.IsNodeDeputy(b.Height(), common.FromHex(id))
 				if due != got[a] {
-					c.Fail("c05/refund-set-wrong", fmt.Sprintf("reward block %d: account %d (isCandidate code %d, deposit %q, node is deputy of the new term: %v) refund due=%v, refunded=%v", b.Height(), l.label(a), pv.isCand, pv.deposit, l.n.DM.IsNodeDeputy(b.Height(), common.FromHex(id)), due, got[a]), nil)
+					nv := l.view(b.Hash(), a)
+					c.Fail("c05/refund-set-wrong", fmt.Sprintf("reward block %d: account %d (isCandidate code %d, deposit %q, node is deputy of the new term: %v) refund due=%v, refunded=%v; after the block: flag %d deposit %q; refund list %v; classes=%v", b.Height(), l.label(a), pv.isCand, pv.deposit, l.n.DM.IsNodeDeputy(b.Height(), common.FromHex(id)), due, got[a], nv.isCand, nv.deposit, sortedLabels(l, refunds), classesOfBlock(b, byHash)), nil)
 				}
 				c.Count("reward:refund-set-checked")
 			}
